@@ -293,9 +293,20 @@ def generate(ctx):
                           '01': {'pot': copy.deepcopy(b2['pairs']['00']['pot']), 'clo': copy.deepcopy(b2['pairs']['00']['clo']), 'om': ['nointra', 0]}}}
         case = {'base': base, 'M': rng.choice([1, 2, 3, 4]), 'sigma': float('%.3g' % rng.uniform(0.7, 1.3)), 'x': G.gen_x(rng, base, 'moderate'), 'chain': rng.choice(['gauss', 'fjc'])}
         ctx.case('split3', case, True, tags=['split:diblock+solvent']); suite_split_solvent(ctx, case)
+    # directed: every potential family with a finite tail, in energy units far from 1 (J per particle, J/mol)
+    for kind in ('exp', 'exp-', 'hclj', 'lj', 'ljshift', 'ljcut', 'wca'):
+        for s in (1e-6, 1.66e-21, 2.5e3):
+            sd = gen_base1(rng, 24)
+            pot = {'exp': ['exp', None, 0.4, 0.6, 1e6], 'exp-': ['exp', None, -0.3, 0.4, 1e6], 'hclj': ['hclj', None, 0.5, 1e6], 'lj': ['lj', None, 0.6], 'ljshift': ['ljshift', None, 0.5, 2.5],
+                   'ljcut': ['ljcut', None, 0.5, 2.0], 'wca': ['wca', None, 0.8]}[kind]
+            sd['pairs']['00']['pot'] = pot
+            sd['pairs']['00']['clo'] = [rng.choice(['py', 'hnc']), pot[0] in ('exp', 'hclj')]
+            case = {'sys': sd, 's': s, 'x': G.gen_x(rng, sd, 'moderate')}
+            ctx.case('scale', case, True, tags=['scale:units', 'pot:' + pot[0]]); suite_scale(ctx, case)
     for _ in range(ctx.n(40, 400)):
         sd = G.gen_system(rng, maxn=2, maxL=ctx.n(20, 48))
         s = float('%.3g' % (10 ** rng.uniform(-2, 2)))
+        if rng.random() < 0.3: s = rng.choice([1e-6, 1.66e-21, 4.14e-21, 1e6, 2.5e3])          # the same physics in other energy units (J per particle, J/mol, K)
         case = {'sys': sd, 's': s, 'x': G.gen_x(rng, sd, 'moderate')}
         ctx.case('scale', case, True, tags=['scale:%s' % ('up' if s > 1 else 'down')] + ['pot:' + pr['pot'][0] for pr in sd['pairs'].values()]); suite_scale(ctx, case)
     for q in range(ctx.n(4, 40)):
